@@ -659,6 +659,8 @@ class SSeq:
 
     def append(self, item):
         L, old = self.length, self.fn
+        if isinstance(item, SOpt):
+            item = item.payload  # appended on a path where the optional was tested to be present
         if isinstance(item, STensor):
             def fn(j):
                 if not is_sym(j) and not is_sym(L):
@@ -675,6 +677,8 @@ class SSeq:
                 if z3.is_false(c):
                     return old(j)
                 o = old(j)
+                if isinstance(item, SRow) and isinstance(o, SRow) and set(item.fields) == set(o.fields):
+                    return SRow({f: z_ite(cmpop('==', j, L), item.fields[f], o.fields[f]) for f in item.fields})
                 if isinstance(item, (SObj, SFrame, SRow)):
                     raise Unsupported('symbolic choice between two objects of a list')
                 if isinstance(item, tuple):
